@@ -15,7 +15,7 @@ pub struct Limits {
     pub only_pos0: bool,
 }
 
-const FIXED: [usize; 8] = [0, 1, 2, 3, 5, 10, 100, 1_000_000];
+const FIXED: [usize; 9] = [0, 1, 2, 3, 5, 10, 100, 1_000_000, usize::MAX];
 const MAX_STACK: u64 = 1_000_000;
 
 pub struct LP {
@@ -187,6 +187,69 @@ impl PatProp for Limits {
                 }
             }
         }
+        // whole find_iter histories: search k of the iteration has a budget of its own (B_k read through the hook while
+        // iterating without a limit); under limit L the items equal the unlimited ones up to the first k with B_k > L,
+        // where the item is the limit error
+        if pos == 0 {
+            let bound = t.chars().count() + 3;
+            let unlimited = std::panic::catch_unwind(std::panic::AssertUnwindSafe(|| {
+                let mut v: Vec<(Option<(usize, usize)>, u64)> = vec![];
+                let mut it = p.re.find_iter(t);
+                loop {
+                    reset_run_stats();
+                    let x = it.next();
+                    // one next() may run two searches (an empty match next to the previous one is dropped and the
+                    // search repeated one character on): the costliest one decides
+                    let st = last_run_stats();
+                    let bk = st.backtracks.max(st.max_backtracks_before);
+                    match x {
+                        None => {
+                            v.push((None, bk));
+                            break;
+                        }
+                        Some(Ok(m)) => v.push((Some((m.start(), m.end())), bk)),
+                        Some(Err(_)) => return None,
+                    }
+                    if v.len() > bound {
+                        return None;
+                    }
+                }
+                Some(v)
+            }));
+            if let Ok(Some(hist)) = unlimited {
+                for (l, re) in p.limited.iter().filter(|(l, _)| [0usize, 2, 10].contains(l)) {
+                    let got = std::panic::catch_unwind(std::panic::AssertUnwindSafe(|| {
+                        let mut v: Vec<String> = vec![];
+                        for x in re.find_iter(t).take(bound + 1) {
+                            match x {
+                                Ok(m) => v.push(format!("({},{})", m.start(), m.end())),
+                                Err(e) => {
+                                    v.push(format!("Err({})", engine::err_kind(&e)));
+                                    break;
+                                }
+                            }
+                        }
+                        v
+                    }));
+                    let mut want: Vec<String> = vec![];
+                    for (item, bk) in &hist {
+                        if *bk > *l as u64 {
+                            want.push("Err(BacktrackLimitExceeded)".to_string());
+                            break;
+                        }
+                        match item {
+                            Some((s, e)) => want.push(format!("({},{})", s, e)),
+                            None => break,
+                        }
+                    }
+                    if let Ok(got) = got {
+                        if got != want {
+                            return Verdict::Fail(Fail::new("limit-threshold-find_iter", format!("limit {}: {:?} (backtracks per search without a limit: {:?})", l, want, hist.iter().map(|h| h.1).collect::<Vec<_>>()), format!("{:?}", got)));
+                        }
+                    }
+                }
+            }
+        }
         // exact threshold for counts that are not next to one of the fixed limits
         if b >= 12 && pos == 0 && t.len() % 2 == 0 {
             for l in [b - 1, b, b + 1] {
@@ -206,7 +269,7 @@ impl PatProp for Limits {
 pub fn run(ctx: &RunCtx) -> Outcome {
     let p = Limits { only_pos0: false };
     let mut o = Outcome::default();
-    o.rule = "VM-compiled patterns of the unrestricted space (exhaustive trees, context x filler products with conditionals, proptest random ASTs) x texts x offsets. Per case the unlimited search is run once and its statistics read through the hook (backtracks B, pushes, peak branch stack, instructions): (ii) for every limit L in {0,1,2,3,5,10,100,10^6} (and B-1, B, B+1 for larger B) the search under backtrack_limit(L) returns exactly Err(BacktrackLimitExceeded) if L < B and exactly the unlimited answer otherwise (find_from_pos at every offset; is_match, captures, the first item of find_iter / captures_iter and try_replacen(t, 1, \"<$0>\") at offset 0 for L in {0,2,10}; try_replacen looks for a second match, whose own search may hit the limit, so above the threshold it may also return the limit error); (iii) with default limits a runtime error is only accepted if the reference exploration of the same case is not tiny (> 10^4 steps); (iv) peak stack <= 10^6 and instructions <= (pushes + B + 1) x |program| x counted-repeat factor x (len+2). Non-trivial = B >= 1 and limits on both sides of the threshold were exercised. Distinct = distinct (pattern, text, offset).".into();
+    o.rule = "VM-compiled patterns of the unrestricted space (exhaustive trees, context x filler products with conditionals, proptest random ASTs) x texts x offsets. Per case the unlimited search is run once and its statistics read through the hook (backtracks B, pushes, peak branch stack, instructions): (ii) for every limit L in {0,1,2,3,5,10,100,10^6,usize::MAX} (and B-1, B, B+1 for larger B) the search under backtrack_limit(L) returns exactly Err(BacktrackLimitExceeded) if L < B and exactly the unlimited answer otherwise (find_from_pos at every offset; is_match, captures, the first item of find_iter / captures_iter and try_replacen(t, 1, \"<$0>\") at offset 0 for L in {0,2,10}; try_replacen looks for a second match, whose own search may hit the limit, so above the threshold it may also return the limit error); (iii) with default limits a runtime error is only accepted if the reference exploration of the same case is not tiny (> 10^4 steps); (iv) peak stack <= 10^6 and instructions <= (pushes + B + 1) x |program| x counted-repeat factor x (len+2). Whole find_iter histories under L in {0,2,10}: item k is the unlimited item while the k-th search's own backtrack count (hook) is <= L, the limit error at the first search that needs more. Non-trivial = B >= 1 and limits on both sides of the threshold were exercised. Distinct = distinct (pattern, text, offset).".into();
     o.assumptions = vec!["hook statistics are those of the single vm::run behind find_from_pos".into(), "wall clock is only a watchdog".into()];
     o.required_classes = vec!["backtracks:1..11".into(), "backtracks:>=12".into(), "oracle:reference-available".into()];
     let quick = ctx.quick();
